@@ -15,12 +15,36 @@ class NullLog:
     """What a deep copy of the log becomes: probes on copies record nothing."""
 
     def __getattr__(self, name):
-        return lambda *a, **k: None
+        if name.startswith('__'):
+            raise AttributeError(name)
+        return _SINK
 
     def __deepcopy__(self, memo):
         return self
 
 
+class _Sink:
+    """Absorbs whatever a callback wants to record: callable, list-like, always empty."""
+
+    def __call__(self, *a, **k):
+        return 0
+
+    def __getattr__(self, name):
+        if name.startswith('__'):
+            raise AttributeError(name)
+        return self
+
+    def __iter__(self):
+        return iter(())
+
+    def __len__(self):
+        return 0
+
+    def __deepcopy__(self, memo):
+        return self
+
+
+_SINK = _Sink()
 NULL_LOG = NullLog()
 
 
@@ -487,8 +511,15 @@ class HGen(PartGenerator):
         self.log = log
 
     def __deepcopy__(self, memo):
-        return HGen(self.src_id, self.values, self.qualities, self.batch_sizes, NULL_LOG, batch_sub=self.batch_sub,
-                    batch_nested=self.batch_nested)
+        import copy
+        g = HGen(self.src_id, self.values, self.qualities, self.batch_sizes, NULL_LOG, batch_sub=self.batch_sub,
+                 batch_nested=self.batch_nested)
+        memo[id(self)] = g
+        # the generator's own state (the base class numbers the parts) travels with the copy; only the log does not
+        for k, v in self.__dict__.items():
+            if k != 'log':
+                g.__dict__[k] = copy.deepcopy(v, memo)
+        return g
 
     def _leaf(self, name, n, k, j):
         v = self.values[j % len(self.values)]
